@@ -179,6 +179,10 @@ func collect(f *flags, overlay map[string][]byte) (*propWork, error) {
 			}
 		}
 	}
+	// generated protobuf packages: loaded with bodies so that their nil-safe getters can be inlined
+	for _, pb := range []string{"pb/sf/substreams/v1", "pb/sf/substreams/intern/v2", "pb/sf/substreams/rpc/v2"} {
+		pkgSet[modulePath+"/"+pb] = true
+	}
 	var patterns []string
 	for p := range pkgSet {
 		patterns = append(patterns, p)
